@@ -16,10 +16,11 @@ def run(chk):
     drv, impl, scns, ms, ds = r
     def judge(scn, i, dp, mp):
         if isinstance(dp, str): return None
-        if sorted((a, b) for a, b, c in dp) != sorted((a, b) for a, b, c in (mp or [])):
+        acc = lambda k: 'A' if k in 'DR' else k          # D and R are both "accepted": which of the two is sent is this property's business
+        if sorted((acc(a), b) for a, b, c in dp) != sorted((acc(a), b) for a, b, c in (mp or [])):
             # which messages exist is the business of C01-C03; but a challenge/mode line relayed to the wrong or to no client is ours
             dk = sorted((a, b) for a, b, c in dp if a in "CM"); mk = sorted((a, b) for a, b, c in (mp or []) if a in "CM")
-            dv = sorted((a, b) for a, b, c in dp if a in "kRD"); mv = sorted((a, b) for a, b, c in (mp or []) if a in "kRD")
+            dv = sorted((acc(a), b) for a, b, c in dp if a in "kRD"); mv = sorted((acc(a), b) for a, b, c in (mp or []) if a in "kRD")
             if dv == mv and dk != mk:
                 return ("step %d (%s): challenge / +x messages differ: daemon %r, expected %r" % (i, step_label(scn, i), [x for x in dp if x[0] in 'CM'], [x for x in mp if x[0] in 'CM']), True)
             return None
